@@ -525,13 +525,45 @@ func (ex *executor) havocAll(st *state, why string) {
 			ex.store(st, k.a, k.v)
 		}
 	}()
+	// `stable` locations of the function under verification survive (whole heap classes)
+	type savedHeap struct {
+		name string
+		h    *Heap
+	}
+	var stable []savedHeap
+	r := ex.root()
+	if rc := r.contract; rc != nil && len(rc.Stable) > 0 {
+		env := &specEnv{ex: r, st: st, old: st, vars: map[string]Value{}, pkgPath: rc.PkgPath}
+		for _, c := range rc.Stable {
+			func() {
+				defer func() {
+					if x := recover(); x != nil {
+						if _, ok := x.(unsupported); !ok {
+							panic(x)
+						}
+					}
+				}()
+				for _, l := range r.evalLoc(c, env) {
+					if l.region == nil {
+						continue
+					}
+					for _, cl := range l.classes {
+						stable = append(stable, savedHeap{cl.Name, ex.heapOf(st, cl)})
+					}
+				}
+				r.abstracted["stable (assumed untouched by callees): "+c.Text+" - "+c.Label]++
+			}()
+		}
+	}
 	tag := ex.fresh("e")
 	na := FreshVar("alloc", IntSort)
 	ex.assume(st, ILe(st.alloc, na))
 	st.alloc = na
 	st.heaps = map[string]*Heap{}
 	st.epochs = []epochAlt{{sel: True, tag: tag, bound: na}}
-	r := ex.root()
+	for _, sh := range stable {
+		st.heaps[sh.name] = sh.h
+	}
 	r.abstracted["havoc-all: "+why]++
 }
 
